@@ -24,6 +24,12 @@ def one(tier, ks, empty=0, plen=1):
 
 def harnesses(tier):
     hs = []
+    TN = 4 if tier == 'quick' else 6
+    hs.append(dict(name='c12_tokenize', src='c12/tokenize.c', defs=dict(N=TN), pool_off=True,
+                   units=['repo:critic_markup.c', 'repo:token.c', 'repo:object_pool.c', 'repo:stack.c', 'repo:char.c'],
+                   unwind=TN + 4, unwindset=['ac_trie_leftmost_longest_search.1:26', 'token_free:6', 'token_tree_free:6'], timeout=900, mem_gb=6, functional=True, replay=False,
+                   bounds='every text of %d characters over the 10-letter marker alphabet, every sub-range (start, len)' % TN,
+                   desc='mmd_critic_tokenize_string: search covers exactly the requested range; tokens contiguous from start'))
     for a in range(13):
         for b in range(13):
             if a == 10 and b in (2, 6, 7):
